@@ -208,7 +208,9 @@ def countTriangles (nRow nCol : Nat) (val : Nat → Nat → Rat) (sched : Option
 def symDegrees (n : Nat) (val : Nat → Nat → Rat) : List Nat :=
   tab n fun i => ((List.range n).filter (symEdge val i)).length
 
-/-- `(degrees * (degrees - 1)).sum()` over `degrees[degrees > 1]` (twice `n_edge_pairs`) -/
+/-- `(degrees * (degrees - 1)).sum()` over `degrees[degrees > 1].astype(np.int64)` (twice `n_edge_pairs`). Exact in
+    int64 for int32 degrees (`d (d - 1) < 2^62`, and `Σ d < 2^31` stored entries bounds the sum by `2^62`); before the
+    repair dc1060d3 of /repo the product was taken in int32 and wrapped at degree 46342. -/
 def twiceEdgePairs (degrees : List Nat) : Nat :=
   ((degrees.filter (1 < ·)).map fun d => d * (d - 1)).foldl (· + ·) 0
 
